@@ -1106,14 +1106,32 @@ func CheckSignatureFromKey(publicKey interface{}, algo SignatureAlgorithm, signe
 	}
 	digest := hash(hashType, signed)
 
+	// A signature algorithm names a kind of key as well as a hash (RFC 5280,
+	// 4.1.1.2): a signature can only have been made under it by a key of
+	// that kind, so any other key is refused instead of letting the key type
+	// alone pick the primitive.
+	keyType := UnknownPublicKeyAlgorithm
+	for _, details := range signatureAlgorithmDetails {
+		if details.algo == algo {
+			keyType = details.pubKeyAlgo
+			break
+		}
+	}
+
 	switch pub := publicKey.(type) {
 	case *rsa.PublicKey:
+		if keyType != RSA {
+			return signatureKeyMismatchError(keyType, pub)
+		}
 		if algo.isRSAPSS() {
 			return rsa.VerifyPSS(pub, hashType, digest, signature, &rsa.PSSOptions{SaltLength: rsa.PSSSaltLengthEqualsHash})
 		} else {
 			return rsa.VerifyPKCS1v15(pub, hashType, digest, signature)
 		}
 	case *dsa.PublicKey:
+		if keyType != DSA {
+			return signatureKeyMismatchError(keyType, pub)
+		}
 		dsaSig := new(dsaSignature)
 		if rest, err := asn1.Unmarshal(signature, dsaSig); err != nil {
 			return err
@@ -1138,6 +1156,9 @@ func CheckSignatureFromKey(publicKey interface{}, algo SignatureAlgorithm, signe
 		}
 		return
 	case *ecdsa.PublicKey:
+		if keyType != ECDSA {
+			return signatureKeyMismatchError(keyType, pub)
+		}
 		ecdsaSig := new(ecdsaSignature)
 		if rest, err := asn1.Unmarshal(signature, ecdsaSig); err != nil {
 			return err
@@ -1155,6 +1176,9 @@ func CheckSignatureFromKey(publicKey interface{}, algo SignatureAlgorithm, signe
 		}
 		return
 	case *AugmentedECDSA:
+		if keyType != ECDSA {
+			return signatureKeyMismatchError(keyType, pub)
+		}
 		ecdsaSig := new(ecdsaSignature)
 		if _, err := asn1.Unmarshal(signature, ecdsaSig); err != nil {
 			return err
@@ -1170,6 +1194,9 @@ func CheckSignatureFromKey(publicKey interface{}, algo SignatureAlgorithm, signe
 		}
 		return
 	case ed25519.PublicKey:
+		if keyType != Ed25519 {
+			return signatureKeyMismatchError(keyType, pub)
+		}
 		// ZCrypto - ed25519.Verify panics on a key of the wrong length.
 		if len(pub) != ed25519.PublicKeySize {
 			return errors.New("x509: wrong Ed25519 public key size")
@@ -1180,6 +1207,12 @@ func CheckSignatureFromKey(publicKey interface{}, algo SignatureAlgorithm, signe
 		return
 	}
 	return ErrUnsupportedAlgorithm
+}
+
+// signatureKeyMismatchError reports that the key handed to a signature check
+// is not of the kind the signature algorithm is defined for.
+func signatureKeyMismatchError(want PublicKeyAlgorithm, pub interface{}) error {
+	return fmt.Errorf("x509: signature algorithm specifies an %s public key, but have public key of type %T", want.String(), pub)
 }
 
 // isExactlyRS reports whether signature is exactly the DER encoding of the
